@@ -84,7 +84,9 @@ class Spec:
                 break
             prev = sig
         self.normal: Set[Node] = self.g.reachable([self.g.entry], may_raise=lambda n: False, edge_filter=self.edge_ok)
-        self.nodes: Set[Node] = self.g.reachable([self.g.entry], edge_filter=self.edge_ok)
+        # exception edges only out of nodes the may-raise oracle does not clear (an assignment of a constant, a comparison of
+        # a string with a literal cannot take the handler)
+        self.nodes: Set[Node] = self.g.reachable([self.g.entry], may_raise=lambda n: an.node_may_raise(fn, n), edge_filter=self.edge_ok)
 
     # ------------------------------------------------------------------ conditions
     def edge_ok(self, a: Node, b: Node, lbl) -> bool:
